@@ -4,9 +4,9 @@ CONSTANTS
   Creator = "a"
   Initial <- InitialABC
   Kinds = {"add", "remove", "promote", "demote"}
-  AccessArgs <- ArgsPlain
+  AccessArgs <- ArgsCond
   Replica = {}
-  MaxOps = 3
+  MaxOps = 6
   MaxRejected = 0
   Defect_TieBreakByPartialCmp = FALSE
   Defect_NoopModifyUnchecked = FALSE
